@@ -115,6 +115,45 @@ ASSUMPTIONS = [
     "name of at most 5 components / a header of at most 3 bases",
 ]
 
+# rules/c06_imports_map.py (R6.23) and rules/c06_local_names.py (R6.24)
+EXPLANATION += (
+    "  R6.23 (rules/c06_imports_map.py) the imports map is closed under "
+    "`parent package`: with an imports map ModuleLoader.find_import accepts a "
+    "directory as a package only through the key `<dir>/__init__`, so the map "
+    "ImportsMapBuilder.build_from_items returns must contain that key for "
+    "every proper ancestor directory of every key (the given file if the items "
+    "name one, os.devnull otherwise), every given module, and nothing else.  "
+    "Decided by evaluating the builder's methods from their AST on every input "
+    "of a small scope (all sets of <= 2 module files over directory chains of "
+    "depth <= 3 with module names sorting before and after the directory "
+    "names and explicit __init__ files, all triples out of 11 paths of depth "
+    "<= 2, a repeated short path, the `%` pseudo-path; 833 inputs); how the "
+    "ancestors are collected is irrelevant.  R6.24 "
+    "(rules/c06_local_names.py) the stub reader's name qualifier "
+    "(visitors.ResolveLocalNames, driven through __init__ / "
+    "EnterTypeDeclUnit / EnterClass / VisitNamedType / VisitClassType) "
+    "inverts the printer's naming convention in every class context: a name "
+    "whose first component is a top-level class of the module is qualified "
+    "from the module root whichever class body the reference sits in; the "
+    "class-scope readings (own simple name, ImmediateOuter.Nested) only apply "
+    "to heads no module-level class claims; Any-typed constants give Any; "
+    "unknown and external-prefixed names stay untouched.  Decided on every "
+    "module whose class tree is a prefix-closed set of paths of length <= 2 "
+    "over two simple names (plus two trees of depth 3) x every class context "
+    "x every class path of the tree.  In both rules anything outside the "
+    "evaluated fragment is an analysis error.")
+ASSUMPTIONS += [
+    "R6.23: os.path / path_utils behave like posixpath on relative "
+    "slash-separated short paths; abspath is modelled as a fixed injective "
+    "prefixing; the small-scope hypothesis: a missing ancestor entry shows on "
+    "at most 3 files of depth <= 3 (4 levels) over two directory names",
+    "R6.24: pytype writes class references in an emitted stub as the class's "
+    "full path from the module root (bare name for a top-level class, "
+    "Outer.Inner for a nested one) independent of the position of the "
+    "reference; this convention is a property of the TypeDeclUnit output.py "
+    "builds (unprefixed names) and is not itself checked here",
+]
+
 OUTPUT = "pytype/output.py"
 CONVERT = "pytype/convert.py"
 LOAD = "pytype/load_pytd.py"
